@@ -1,6 +1,6 @@
 #!/usr/bin/env python3
 """Assemble /verif/seeded/<id>/ from the confirmed blind mutants.
-   round 1: /tmp/mw/<P>/mutants/<X>.diff  -> seeded/<P>-<X>/      round 2: /tmp/mw2/... -> seeded/r2-<P>-<X>/
+   round 1: /tmp/mw/<P>/mutants/<X>.diff  -> seeded/<P>-<X>/      rounds 2, 3: /tmp/mw2, /tmp/mw3 -> seeded/r2-<P>-<X>/, seeded/r3-<P>-<X>/
    Each directory: patch.diff, demo.py, NOTES.md (author's notes), meta.json (property broken, what the change needs in order to
    manifest, what was run to confirm it, which checks report it).  Only mutants whose confirmation record says confirmed are kept.
    'needs' / 'caught by' texts are taken from the tables of DESIGN.md (sections 8.5 and 8.5b), the rules that fire from the triage
@@ -16,7 +16,7 @@ for line in design.splitlines():
     cells = [c.strip() for c in line.strip().strip("|").split("|")]
     if len(cells) != 3:
         continue
-    for m in re.finditer(r"(r2-)?C\d\d-[ABC]", cells[0]):
+    for m in re.finditer(r"(r[23]-)?C\d\d-[ABC]", cells[0]):
         rows[m.group(0)] = cells
 triage = {}
 for f in sys.argv[1:]:
@@ -27,7 +27,7 @@ SUITE_CMD = ("pytest -q -p no:cacheprovider --timeout=1800 -n 4 --deselect tests
              "the pinned suite) on a scratch worktree of /repo HEAD with the patch applied; tests/QGMRES/test_qgmres_large.py -k "
              "test_qgmres_large_scale additionally when the patch touches solver.py / utils.py / data_gen.py / decomp/LU.py")
 kept, dropped = [], []
-for root, prefix in (("/tmp/mw", ""), ("/tmp/mw2", "r2-")):
+for root, prefix in (("/tmp/mw", ""), ("/tmp/mw2", "r2-"), ("/tmp/mw3", "r3-")):
     cdir = os.path.join(root, "confirm")
     if not os.path.isdir(cdir):
         continue
@@ -49,7 +49,7 @@ for root, prefix in (("/tmp/mw", ""), ("/tmp/mw2", "r2-")):
         if os.path.exists(os.path.join(src, "NOTES.md")):
             shutil.copy(os.path.join(src, "NOTES.md"), os.path.join(dst, "NOTES.md"))
         row = rows.get(mid) or rows.get(tag if not prefix else mid)
-        tri = triage.get(("r1-" if not prefix else "") + mid if not prefix else mid) or triage.get(mid) or {}
+        tri = triage.get(mid) or {}
         fired = {p: v.get("rules") for p, v in tri.items() if isinstance(v, dict) and v.get("rc") == 1}
         meta = {
             "id": mid,
